@@ -298,6 +298,12 @@ def sart_cases(ctx, n_cases, big):
             if snap(v_) != s0:
                 ctx.fail('C11:%s:argument-%s-modified' % ('invert_constrained_sart' if constrained else 'invert_sart', nm_),
                          'the caller\'s %s was modified by the call' % nm_, dict(W=W, b=b, L=L))
+        twin = None
+        if constrained and beta == 0.0:
+            # two entry points agree (`csart_beta_zero`): without penalty the constrained solver is invert_sart
+            g2 = guess_copy.copy() if guess_copy is not None else guess
+            with np.errstate(all='ignore'):
+                twin = call(invert_sart, Wa, ba, initial_guess=g2, max_iterations=maxit, relaxation=relax, conv_tol=tol)
         desc = dict(func='invert_constrained_sart' if constrained else 'invert_sart', W=W, b=b, L=L, beta=beta if constrained else None,
                     initial_guess_kind=gk, x0=[float(v) for v in x0], max_iterations=maxit, relaxation=relax, conv_tol=tol,
                     matrix_class=wk, b_class=bk, laplacian_class=lk)
@@ -311,7 +317,7 @@ def sart_cases(ctx, n_cases, big):
                  sample=dict(func=fn, shape=[m, n], matrix_class=wk, b_class=bk, initial_guess=gk, max_iterations=maxit,
                              relaxation=relax, conv_tol=tol, beta_laplace=desc['beta'], W=W, b=b) if it % 97 == 3 else None)
         cases.append(dict(line=line, st=st, res=res, desc=desc, n=n, x0=x0, W=W, b=b, L=L, beta=beta if constrained else 0.0,
-                          relax=relax, tol=tol, maxit=maxit))
+                          relax=relax, tol=tol, maxit=maxit, guess_obj=guess, guess_before=guess_copy, twin=twin))
     return cases
 
 
@@ -359,6 +365,26 @@ def sart_compare(ctx, c, o):
     sart_oracles(ctx, c)
     t = o.split()
     st, res, d = c['st'], c['res'], c['desc']
+    if c.get('twin') is not None:
+        # the implementation's two entry points agree when beta_laplace = 0 (np.dot may round differently from call to call
+        # with the alignment of its operands: values compared at the K tolerance, a stop decision on the boundary is skipped)
+        st2, res2 = c['twin']
+        ctx.count('entry-points:constrained(beta=0) vs invert_sart')
+        why = None
+        if st2 != st:
+            why = 'constrained %s, invert_sart %s' % (st, st2)
+        elif st == 'ok':
+            c1 = [float(v) for v in res[1]]; c2 = [float(v) for v in res2[1]]
+            if len(c1) != len(c2):
+                k = min(len(c1), len(c2)) - 1
+                if k >= 1 and abs(abs(c1[k] - c1[k - 1]) - c['tol']) <= 1e-9 * (1 + abs(c1[k])):
+                    ctx.count('stop-decision-guard-band-skipped')
+                else:
+                    why = 'iteration counts %d vs %d' % (len(c1), len(c2))
+            elif not (vec_close(res[0], res2[0], 1e-9, 1e-10 * c.get('mag', 0.0)) and conv_close(c1, c2, 1e-9, 1e-10 * c.get('cfloor', 0.0))):
+                why = 'constrained %r %r, invert_sart %r %r' % (list(res[0]), c1, list(res2[0]), c2)
+        if why:
+            ctx.fail('C11:invert_constrained_sart:beta_laplace=0-differs-from-invert_sart', 'beta_laplace = 0: ' + why, d)
     name = 'C11 stream ' + d['func']
     if t[0] != 'ok' or st != 'ok':
         if t[0] != st:
@@ -385,11 +411,52 @@ def sart_compare(ctx, c, o):
     ctx.count('stopped:' + ('max_iterations' if N == c['maxit'] else 'convergence'))
 
 
+def guess_after_compare(ctx, o, guess_obj, guess_before, st, res, desc, mag=0.0):
+    """K for the model's `guessAfter` (driver op `ga`): the state of the caller's `initial_guess` object after the call.
+    An array guess holds the returned solution after a successful call and is untouched when the call raised; scalars and
+    None are what they were."""
+    ctx.traces += 1
+    t = o.split()
+    name = 'C11 stream guess-after'
+    why = None
+    if guess_obj is None:
+        if t != ['none']:
+            why = 'model says the None guess became %r' % (o[:80],)
+    elif not isinstance(guess_obj, np.ndarray):
+        if t[0] != 'scalar' or len(t) != 2 or b2f(t[1]) != float(guess_obj):
+            why = 'model says the scalar guess %r became %r' % (guess_obj, o[:80])
+    else:
+        now = [float(v) for v in guess_obj]
+        if t[0] != 'array' or int(t[1]) != len(t) - 2:
+            why = 'model output malformed / not an array: %r' % (o[:80],)
+        else:
+            xm = [b2f(v) for v in t[2:]]
+            if st != 'ok':
+                # a rejected call must leave the array exactly as it was — in the code and in the model
+                if now != [float(v) for v in guess_before] or _bits(xm) != _bits([float(v) for v in guess_before]):
+                    why = 'after %s: array was %r, is %r, model %r' % (st, [float(v) for v in guess_before], now, xm)
+                ctx.count('guess-after:array-untouched-after-' + st)
+            else:
+                if len(xm) != len(now) or not vec_close(now, xm, 1e-9, 1e-10 * mag):
+                    why = 'after ok: array holds %r, model %r' % (now, xm)
+                elif _bits(now) != _bits([float(v) for v in np.asarray(res[0], float)]):
+                    why = 'after ok: array holds %r but %r was returned' % (now, [float(v) for v in res[0]])
+                ctx.count('guess-after:array-holds-returned-solution')
+    if why:
+        ctx.disagreements += 1
+        ctx.broke('correspondence', name, dict(what=why, model=o[:200], implementation=st, input=desc))
+
+
 def sart_stream(ctx):
     cases = sart_cases(ctx, ctx.n(800, 30000), 8 if ctx.tier == 'quick' else 12)
     outs = ctx.driver([c['line'] for c in cases])
     for c, o in zip(cases, outs):
         sart_compare(ctx, c, o)
+    # `guessAfter`: every array guess, and a sample of the immutable kinds
+    sel = [c for i, c in enumerate(cases) if isinstance(c['guess_obj'], np.ndarray) or i % 8 == 0]
+    outs = ctx.driver(['ga ' + c['line'] for c in sel])
+    for c, o in zip(sel, outs):
+        guess_after_compare(ctx, o, c['guess_obj'], c['guess_before'], c['st'], c['res'], c['desc'], c.get('mag', 0.0))
 
 
 # ------------------------------------------------------------------------------------------------- exact stream
@@ -572,6 +639,17 @@ def kinds_stream(ctx):
         exp.append(st2)
         if maxit > 0 and st == 'ZeroDivisionError':
             ctx.count('observation:zero-measurement-raises-ZeroDivisionError(stop rule undefined; outside property)')
+    # rejected calls leave an array guess untouched (model: `guessAfter`)
+    ga = []
+    for g, bz, maxit in ((np.array([1.0, 1.0, 1.0]), b, 2), (np.array([1.0]), b, 2), (np.array([0.5, 2.0]), np.zeros(3), 1),
+                         (np.array([0.5, 2.0]), np.zeros(3), 5), (np.array([0.5, -2.0]), np.zeros(3), 0), (np.array([0.5, 2.0]), b, 3)):
+        g0 = g.copy()
+        st, res = call(invert_sart, W, bz, initial_guess=g, max_iterations=maxit)
+        l = 'sart 2 3 %d %s %s 2 %d %s %s %s' % (maxit, f2b(1.0), f2b(1e-4), len(g0), fs(g0.tolist()), fs(W.ravel().tolist()), fs(bz.tolist()))
+        ga.append((l, g, g0, st, res))
+    for (l, g, g0, st, res), o in zip(ga, ctx.driver(['ga ' + t[0] for t in ga])):
+        ctx.case(key=('guess-after', l[:40], st))
+        guess_after_compare(ctx, o, g, g0, st, res, dict(func='invert_sart', line=l[:120]))
     outs = ctx.driver(lines)
     for l, e, o in zip(lines, exp, outs):
         ctx.traces += 1
@@ -783,6 +861,16 @@ def lsq_judge(ctx, rng, which, M, st, res, calls, desc, lines, checks, kw=None, 
         rel_svd = max(rel, min(1.0, eps * kappa))
         if rel_svd > rel:
             ctx.count('svd:ill-conditioned retained singular values (tolerance eps*kappa)')
+        if spycall is not None and Wa.size:
+            # hypothesis of `svd_wrapper_correct` (Moore-Penrose conditions 1 and 3), monitored on what scipy.linalg.pinv returned
+            Pn = np.asarray(spycall[2], float).reshape(n, m)
+            with np.errstate(all='ignore'):
+                wp = Wa @ Pn
+                nw, npn = float(np.linalg.norm(Wa)), float(np.linalg.norm(Pn))
+                e1 = float(np.max(np.abs(wp @ Wa - Wa))) / (nw * (1.0 + nw * npn) + 1e-300)
+                e3 = float(np.max(np.abs(wp - wp.T))) / (1.0 + nw * npn)
+            ctx.count('svd:pinv-contract(WPW=W, WP symmetric) ' + ('holds' if max(e1, e3) <= 100 * rel_svd else
+                                                                     'residual above tolerance (external solver; observation)'))
         if x.shape != (n,) or np.max(np.abs(g)) > rel_svd * sc:
             ctx.fail('C11:invert_svd:normal-equations-violated', 'shape %r, max |W^T(Wx-b)| = %.3g at scale %.3g (retained condition number %.3g)'
                      % (x.shape, float(np.max(np.abs(g))), sc, kappa), dict(desc, returned_x=x.tolist()))
